@@ -1054,7 +1054,9 @@ Definition g_code : list (string * list gstmt) := [
     SAssign [(GVar "nItem"); (GVar "err")] ":=" [(GCall "nItemLoc.read" [(GVar "t"); (GVar "false")])];
     SIf [] (GBin "!=" (GVar "err") GNil) [SReturn [(GUn "&" (GVar "emptyNodeLoc")); (GUn "&" (GVar "emptyNodeLoc")); (GUn "&" (GVar "emptyNodeLoc")); (GVar "err")]] [];
     SAssign [(GVar "c")] ":=" [(GCall "t.compare" [(GVar "s"); (GVar "nItem.Key")])];
-    SIf [] (GBin "==" (GVar "c") (GInt 0)) [SAssign [(GVar "left")] ":=" [(GCall "t.mkNodeLoc(nil).Copy" [(GUn "&" (GVar "nNode.left"))])];
+    SIf [] (GBin "==" (GVar "c") (GInt 0)) [SIf [SAssign [(GVar "_"); (GVar "err")] ":=" [(GCall "nNode.left.read" [(GVar "o")])]] (GBin "!=" (GVar "err") GNil) [SReturn [(GUn "&" (GVar "emptyNodeLoc")); (GUn "&" (GVar "emptyNodeLoc")); (GUn "&" (GVar "emptyNodeLoc")); (GVar "err")]] [];
+    SIf [SAssign [(GVar "_"); (GVar "err")] ":=" [(GCall "nNode.right.read" [(GVar "o")])]] (GBin "!=" (GVar "err") GNil) [SReturn [(GUn "&" (GVar "emptyNodeLoc")); (GUn "&" (GVar "emptyNodeLoc")); (GUn "&" (GVar "emptyNodeLoc")); (GVar "err")]] [];
+    SAssign [(GVar "left")] ":=" [(GCall "t.mkNodeLoc(nil).Copy" [(GUn "&" (GVar "nNode.left"))])];
     SAssign [(GVar "right")] ":=" [(GCall "t.mkNodeLoc(nil).Copy" [(GUn "&" (GVar "nNode.right"))])];
     SAssign [(GVar "middle")] ":=" [(GCall "t.mkNodeLoc(nil).Copy" [(GVar "n")])];
     SReturn [(GVar "left"); (GVar "middle"); (GVar "right"); GNil]] [];
